@@ -54,6 +54,8 @@ pub open spec fn lanes_after(l0: Map<u64, LaneState>, l: Map<u64, LaneState>, ms
 //@ fn actors/paych/src/lib.rs Actor::update_channel_state closure=0 as=update_tx0 params="st: &mut State, rt: &Rt, sv: SignedVoucher" retty="Result<(), ActorError>"
     ensures
         final(st).from == old(st).from, final(st).to == old(st).to,
+        // the amount owed is never negative and never above what the channel holds (payee solvency)
+        /*C01*/ /*C16*/ r.is_ok() ==> 0 <= final(st).to_send@ <= rt.balance@,
         r.is_ok() ==> ({
             let l0 = lanes_of(*old(st));
             let l1 = lanes_of(*final(st));
@@ -70,8 +72,6 @@ pub open spec fn lanes_after(l0: Map<u64, LaneState>, l: Map<u64, LaneState>, ms
                     && (l0.dom().contains(k) ==> (#[trigger] l1[k]).nonce == l0[k].nonce && l1[k].redeemed@ == l0[k].redeemed@)
             // the amount owed moves by exactly: amount - already redeemed on its lane - already redeemed on the merged lanes
             &&& final(st).to_send@ == old(st).to_send@ + sv.amount@ - redeemed_at(l0, sv.lane) - merge_sum(l0, ms, ms.len() as int)
-            // never negative, never above the channel's balance
-            &&& 0 <= final(st).to_send@ <= rt.balance@
             // minimum settle heights only extend the delay
             &&& final(st).min_settle_height >= old(st).min_settle_height
             &&& (sv.min_settle_height != 0 ==> final(st).min_settle_height >= sv.min_settle_height)
@@ -120,6 +120,8 @@ pub proof fn distinct_sum_eq_when_distinct(l: Map<u64, LaneState>, ms: Seq<Merge
 //@ fn actors/paych/src/lib.rs Actor::update_channel_state closure=0 as=update_tx0_prop params="st: &mut State, rt: &Rt, sv: SignedVoucher" retty="Result<(), ActorError>"
     ensures
         final(st).from == old(st).from, final(st).to == old(st).to,
+        // the amount owed is never negative and never above what the channel holds (payee solvency)
+        /*C01*/ /*C16*/ r.is_ok() ==> 0 <= final(st).to_send@ <= rt.balance@,
         r.is_ok() ==> ({
             let l0 = lanes_of(*old(st));
             let l1 = lanes_of(*final(st));
@@ -136,8 +138,6 @@ pub proof fn distinct_sum_eq_when_distinct(l: Map<u64, LaneState>, ms: Seq<Merge
                     && (l0.dom().contains(k) ==> (#[trigger] l1[k]).nonce == l0[k].nonce && l1[k].redeemed@ == l0[k].redeemed@)
             // the amount owed moves by exactly: amount - already redeemed on its lane - already redeemed on the merged lanes
             &&& final(st).to_send@ == old(st).to_send@ + sv.amount@ - redeemed_at(l0, sv.lane) - distinct_sum(l0, ms, ms.len() as int)
-            // never negative, never above the channel's balance
-            &&& 0 <= final(st).to_send@ <= rt.balance@
             // minimum settle heights only extend the delay
             &&& final(st).min_settle_height >= old(st).min_settle_height
             &&& (sv.min_settle_height != 0 ==> final(st).min_settle_height >= sv.min_settle_height)
